@@ -555,6 +555,10 @@ def run(ctx):
 
     # ---------------------------------------------------------------- 3. dispatch
     r3 = rep.rule('C13.3-dispatch-table', 'R-TABLE', 'first byte of an instruction -> action: # nothing; . / maildir if the line ends in / else mbox; | program; + list; & and everything else forward; blank first line -> 111')
+    # the instructions are what slurpclose() read: a read error is an error, not the end of the file
+    from rules import libtab as _lt
+    for inst_, v_ in sorted(_lt.slurpclose_sites(db, rep, prog).items()):
+        r3.check(v_[0], inst_, v_[1], v_[2], v_[3])
     for k_ in ('first-byte->action', 'trailing-slash-selects-maildir', 'blank-first-line-is-refused', 'forward-list-fits-its-allocation'):
         r3.check(its[k_][0], k_, its[k_][1], its[k_][2], its[k_][3])
     r3.expect_min(2)
